@@ -4,6 +4,7 @@ import (
 	"context"
 	"fmt"
 	"os"
+	"slices"
 	"strings"
 	"time"
 
@@ -154,7 +155,12 @@ func (s *CloneService) DetectClonesInFiles(ctx context.Context, filePaths []stri
 	detector.SetUseLSH(useLSH)
 
 	// Detect clones (detector will automatically use LSH or standard algorithm based on UseLSH setting)
-	clonePairs, cloneGroups := detector.DetectClonesWithLSH(ctx, allFragments)
+	clonePairs, _ := detector.DetectClonesWithLSH(ctx, allFragments)
+
+	// Keep only the pairs that will be reported, then group those: a group must not be
+	// held together by a pair that the request filters out (similarity range, clone types).
+	clonePairs = s.filterDetectedPairs(clonePairs, req)
+	cloneGroups := detector.GroupClonePairs(clonePairs)
 
 	// Convert to domain objects
 	domainClones := s.convertFragmentsToDomainClones(allFragments)
@@ -405,6 +411,21 @@ func (s *CloneService) convertCloneType(cloneType analyzer.CloneType) domain.Clo
 	default:
 		return domain.Type1Clone
 	}
+}
+
+// filterDetectedPairs applies the request criteria of filterClonePairs to the detector's pairs
+func (s *CloneService) filterDetectedPairs(pairs []*analyzer.ClonePair, req *domain.CloneRequest) []*analyzer.ClonePair {
+	filtered := make([]*analyzer.ClonePair, 0, len(pairs))
+	for _, pair := range pairs {
+		if pair.Similarity < req.MinSimilarity || pair.Similarity > req.MaxSimilarity {
+			continue
+		}
+		if !slices.Contains(req.CloneTypes, s.convertCloneType(pair.CloneType)) {
+			continue
+		}
+		filtered = append(filtered, pair)
+	}
+	return filtered
 }
 
 // filterClonePairs filters clone pairs based on request criteria
